@@ -5,7 +5,12 @@
 //
 // Input tokens:
 //
-//	<cfg>  rib|direct                 session kind; rib = a real adjRIBOut.AdjRIBOut sits in front of the sender
+//	<cfg>  rib|direct|realrib|real    session kind; rib = a real adjRIBOut.AdjRIBOut sits in front of the sender;
+//	                                  real* = the REAL sender goroutine runs (UpdateSender.Start) against a connection
+//	                                  whose Write of an announcement blocks until the harness releases it; the ops are
+//	                                  grouped by `|`: group 0 runs before the goroutine is started, every further group
+//	                                  while the goroutine is blocked in its next Write (or, when it has nothing to write
+//	                                  and has been stopped, before it is started again); no d/e/f/O/X tokens
 //	P<tag>=<shape>                    the paths of the case (tag = next hop octet*10 + ATOMIC_AGGREGATE)
 //	a<x>:<tag>[/<steps>]              route change: path <tag> for prefix <x>; <steps> (letters d<i> e f) are
 //	                                  sender steps performed after the first call the change makes downstream
@@ -21,6 +26,8 @@
 // V=<peer's view> T=<Adj-RIB-Out>:
 //
 //	A<x>:<tag>:<pid>  R<x>:<tag>:<pid>  D<tag>:<pid>  E  O<tag>:<pid>.<tag>:<pid>...
+//	B<tag>:<pid>      (real*) the goroutine is blocked in the Write of a message of this key: it has dequeued the
+//	                  key if no batch was in flight
 //	wire events: w<x>:<pid>  n<tag>:<pid>:<len>:<x.x.x | #count:hash>  o
 package main
 
@@ -51,18 +58,28 @@ type key struct {
 }
 
 type world struct {
-	cfg     usx.Cfg
-	ribMode bool
-	shapes  map[int]usx.Shape
-	cap     *usx.Capture
-	us      *server.VerifUS
-	aro     *adjRIBOut.AdjRIBOut
-	table   map[key]int // direct mode: what the client was told, keyed like the wire
-	pfxIdx  map[string]int
-	batch   *server.VerifUSBatch
-	events  []string
-	decoded []*usx.Update
-	steps   string // sender steps to perform after the next downstream call
+	cfg      usx.Cfg
+	ribMode  bool
+	shapes   map[int]usx.Shape
+	cap      interface{ Take() [][]byte }
+	real     *usx.Real
+	realMode bool
+	// real mode: the harness' own book-keeping of what is queued / in flight, only used to tell the known
+	// finding from other differences
+	shQueued     map[int]map[int]bool
+	shFlight     map[int]bool
+	shFlightP    uint32
+	shPid        map[int]uint32 // path identifier of the path last queued with a tag
+	actedBlocked bool
+	stalled      error
+	us           *server.VerifUS
+	aro          *adjRIBOut.AdjRIBOut
+	table        map[key]int // direct mode: what the client was told, keyed like the wire
+	pfxIdx       map[string]int
+	batch        *server.VerifUSBatch
+	events       []string
+	decoded      []*usx.Update
+	steps        string // sender steps to perform after the next downstream call
 	// classification of a final difference
 	overtaken  map[key]bool
 	hitPending bool
@@ -176,6 +193,14 @@ func (s shim) AddPath(pfx *bnet.Prefix, p *route.Path) error {
 	w := s.w
 	x := w.pfxIdx[pfx.String()]
 	err := w.us.AddPath(pfx, p)
+	if w.realMode {
+		t := tagOfPath(p)
+		if w.shQueued[t] == nil {
+			w.shQueued[t] = map[int]bool{}
+		}
+		w.shQueued[t][x] = true
+		w.shPid[t] = p.BGPPath.PathIdentifier
+	}
 	w.log(fmt.Sprintf("A%d:%d:%d", x, tagOfPath(p), p.BGPPath.PathIdentifier))
 	w.interposed()
 	return err
@@ -192,6 +217,17 @@ func (s shim) RemovePath(pfx *bnet.Prefix, p *route.Path) bool {
 				if w.pfxIdx[q.String()] == x {
 					w.overtaken[k] = true
 				}
+			}
+		}
+	}
+	if w.realMode {
+		if w.shFlight[x] && w.shFlightP == k.pid {
+			w.overtaken[k] = true
+		}
+		for tag, set := range w.shQueued {
+			if w.wpid(w.pidOfTag(tag)) == k.pid && set[x] {
+				w.hitPending = true
+				delete(set, x)
 			}
 		}
 	}
@@ -342,6 +378,77 @@ func (w *world) drain(p int) {
 	}
 }
 
+func (w *world) pidOfTag(tag int) uint32 { return w.shPid[tag] }
+
+// realRun drives the real sender goroutine over the op groups
+func (w *world) realRun(groups [][]string) (stalled error, err error) {
+	gi := 0
+	runGroup := func() error {
+		if gi < len(groups) {
+			g := groups[gi]
+			gi++
+			return w.execOps(g)
+		}
+		return nil
+	}
+	if err := runGroup(); err != nil {
+		return nil, err
+	}
+	for {
+		if len(w.us.Keys()) == 0 {
+			if gi >= len(groups) {
+				return nil, nil
+			}
+			if err := runGroup(); err != nil {
+				return nil, err
+			}
+			continue
+		}
+		if w.real.Rounds > 500 {
+			return fmt.Errorf("queue not drained after %d rounds of the sender goroutine", w.real.Rounds), nil
+		}
+		w.real.Start()
+		for {
+			m, serr := w.real.Next()
+			if serr != nil {
+				w.real.Abandon()
+				return serr, nil
+			}
+			if m == nil {
+				break
+			}
+			u, derr := usx.DecodeUpdate(m, w.cfg)
+			if derr != nil || len(u.Announced) == 0 {
+				w.events = append(w.events, "B?")
+			} else {
+				tag := tagOfUpdate(u)
+				if len(w.shFlight) == 0 { // a new batch: everything queued under the key is in flight now
+					w.shFlight, w.shFlightP = w.shQueued[tag], w.wpid(w.pidOfTag(tag))
+					if w.shFlight == nil {
+						w.shFlight = map[int]bool{}
+					}
+					delete(w.shQueued, tag)
+				}
+				w.events = append(w.events, fmt.Sprintf("B%d:%d", tag, w.pidOfTag(tag)))
+			}
+			if gi < len(groups) {
+				w.actedBlocked = true
+			}
+			if err := runGroup(); err != nil {
+				w.real.Abandon()
+				return nil, err
+			}
+			w.real.G.Release()
+			w.log("E")
+			if u != nil {
+				for _, n := range u.Announced {
+					delete(w.shFlight, int(n.P.Idx))
+				}
+			}
+		}
+	}
+}
+
 // ---- route changes
 
 func (w *world) add(x, tag int) {
@@ -402,17 +509,21 @@ func (w *world) remove(x, tag int, otherPid bool) {
 // ---- a case
 
 type tcase struct {
-	cfg     usx.Cfg
-	ribMode bool
-	shapes  map[int]usx.Shape
-	tags    []int
-	ops     []string
+	cfg      usx.Cfg
+	ribMode  bool
+	realMode bool
+	shapes   map[int]usx.Shape
+	tags     []int
+	ops      []string
 }
 
 func (t tcase) String() string {
 	mode := "direct"
 	if t.ribMode {
 		mode = "rib"
+	}
+	if t.realMode {
+		mode = map[bool]string{false: "real", true: "realrib"}[t.ribMode]
 	}
 	s := []string{t.cfg.String(), mode}
 	for _, tag := range t.tags {
@@ -435,6 +546,10 @@ func parseCase(in string) (tcase, error) {
 	case "rib":
 		t.ribMode = true
 	case "direct":
+	case "real":
+		t.realMode = true
+	case "realrib":
+		t.realMode, t.ribMode = true, true
 	default:
 		return t, fmt.Errorf("bad mode %q", f[1])
 	}
@@ -481,29 +596,19 @@ func two(s string) (int, int, string, error) {
 	return a, b, steps, nil
 }
 
-func exec(t tcase) (*world, error) {
-	w := &world{cfg: t.cfg, ribMode: t.ribMode, shapes: t.shapes, cap: &usx.Capture{}, table: map[key]int{},
-		pfxIdx: map[string]int{}, overtaken: map[key]bool{}}
-	w.us = server.VerifUSNew(t.cfg.Options(), w.cap)
-	if t.ribMode {
-		if !t.cfg.IBGP || t.cfg.RR {
-			return nil, fmt.Errorf("rib mode is for iBGP sessions to non-clients")
+func (w *world) execOps(ops []string) error {
+	for _, op := range ops {
+		if w.realMode && (strings.ContainsAny(op[:1], "defOX") || strings.Contains(op, "/")) {
+			return fmt.Errorf("op %q is not for the real sender goroutine", op)
 		}
-		w.aro = adjRIBOut.New(locRIB.New("inet.0"), routingtable.SessionAttrs{
-			RouterID: 1, PeerIP: bnet.IPv4FromOctets(169, 254, 100, 100).Ptr(), LocalIP: bnet.IPv4FromOctets(169, 254, 100, 1).Ptr(),
-			Type: route.BGPPathType, IBGP: true, LocalASN: 65000, PeerASN: 65000, AddPathTX: t.cfg.AddPath,
-		}, filter.NewAcceptAllFilterChain())
-		w.aro.Register(shim{w})
-	}
-	for _, op := range t.ops {
 		switch op[0] {
 		case 'a', 'r', 'q':
 			x, tag, steps, e := two(op[1:])
 			if e != nil {
-				return nil, e
+				return e
 			}
-			if _, ok := t.shapes[tag]; !ok || x > 5000 {
-				return nil, fmt.Errorf("bad op %q", op)
+			if _, ok := w.shapes[tag]; !ok || x > 5000 {
+				return fmt.Errorf("bad op %q", op)
 			}
 			w.steps = steps
 			if op[0] == 'a' {
@@ -515,10 +620,10 @@ func exec(t tcase) (*world, error) {
 		case 'b':
 			tag, n, _, e := two(op[1:])
 			if e != nil {
-				return nil, e
+				return e
 			}
-			if _, ok := t.shapes[tag]; !ok || n > 4000 {
-				return nil, fmt.Errorf("bad op %q", op)
+			if _, ok := w.shapes[tag]; !ok || n > 4000 {
+				return fmt.Errorf("bad op %q", op)
 			}
 			for i := 0; i < n; i++ {
 				w.add(100+i, tag)
@@ -530,14 +635,53 @@ func exec(t tcase) (*world, error) {
 		case 'X':
 			p, e := strconv.Atoi(op[1:])
 			if e != nil {
-				return nil, e
+				return e
 			}
 			w.drain(p)
 		default:
-			return nil, fmt.Errorf("bad op %q", op)
+			return fmt.Errorf("bad op %q", op)
 		}
 	}
-	return w, nil
+	return nil
+}
+
+func exec(t tcase) (*world, error) {
+	w := &world{cfg: t.cfg, ribMode: t.ribMode, realMode: t.realMode, shapes: t.shapes, table: map[key]int{},
+		pfxIdx: map[string]int{}, overtaken: map[key]bool{}, shQueued: map[int]map[int]bool{}, shPid: map[int]uint32{}}
+	if t.realMode {
+		g := usx.NewGate()
+		w.cap = g
+		w.us = server.VerifUSNew(t.cfg.Options(), g)
+		w.real = usx.NewReal(w.us, g)
+	} else {
+		c := &usx.Capture{}
+		w.cap = c
+		w.us = server.VerifUSNew(t.cfg.Options(), c)
+	}
+	if t.ribMode {
+		if !t.cfg.IBGP || t.cfg.RR {
+			return nil, fmt.Errorf("rib mode is for iBGP sessions to non-clients")
+		}
+		w.aro = adjRIBOut.New(locRIB.New("inet.0"), routingtable.SessionAttrs{
+			RouterID: 1, PeerIP: bnet.IPv4FromOctets(169, 254, 100, 100).Ptr(), LocalIP: bnet.IPv4FromOctets(169, 254, 100, 1).Ptr(),
+			Type: route.BGPPathType, IBGP: true, LocalASN: 65000, PeerASN: 65000, AddPathTX: t.cfg.AddPath,
+		}, filter.NewAcceptAllFilterChain())
+		w.aro.Register(shim{w})
+	}
+	if !t.realMode {
+		return w, w.execOps(t.ops)
+	}
+	groups := [][]string{nil}
+	for _, op := range t.ops {
+		if op == "|" {
+			groups = append(groups, nil)
+			continue
+		}
+		groups[len(groups)-1] = append(groups[len(groups)-1], op)
+	}
+	var err error
+	w.stalled, err = w.realRun(groups)
+	return w, err
 }
 
 func countPending(t tcase) int {
@@ -598,6 +742,11 @@ func runCase(t tcase) (obs, sig, detail string, nt bool, err error) {
 	obs = strings.Join(compress(w.events), " ") + " V=" + render(view) + " T=" + render(table)
 
 	quiet := len(w.us.Keys()) == 0 && (w.batch == nil || w.batch.Remaining() == 0)
+	if w.stalled != nil {
+		quiet = false
+		sig, detail = "sender-stalled", w.stalled.Error()
+		obs += " STALLED"
+	}
 	if quiet {
 		diff := func(k key, what string) {
 			s := what
@@ -622,7 +771,7 @@ func runCase(t tcase) (obs, sig, detail string, nt bool, err error) {
 			}
 		}
 	}
-	return obs, sig, detail, quiet && w.hitPending, nil
+	return obs, sig, detail, quiet && (w.hitPending || w.actedBlocked), nil
 }
 
 // compress turns runs A<x>:<t>:<p> A<x+1>:<t>:<p> ... into A<x>-<y>:<t>:<p>
@@ -745,6 +894,60 @@ func genCase(r *hx.RNG, tr *hx.Trace) tcase {
 	return t
 }
 
+// genReal: a history for the real sender goroutine: groups of route changes, the first before the goroutine
+// starts, the others while it is blocked in its successive Writes
+func genReal(r *hx.RNG, tr *hx.Trace) tcase {
+	t := genCase(r, tr)
+	t.realMode = true
+	t.ops = nil
+	tr.Count("stream_real")
+	nx := 2 + r.Intn(3)
+	bulk := 0
+	op := func() string {
+		tag := t.tags[r.Intn(len(t.tags))]
+		x := r.Intn(nx)
+		if bulk > 0 && r.Chance(40) {
+			x = 100 + r.Pick([]int{0, 1, bulk / 2, bulk - 1, bulk - 2})
+		}
+		c := r.Intn(100)
+		switch {
+		case c < 55:
+			return fmt.Sprintf("a%d:%d", x, tag)
+		case c < 92:
+			kind := "r"
+			if !t.ribMode && !t.cfg.AddPath && r.Chance(30) {
+				kind = "q"
+			}
+			return fmt.Sprintf("%s%d:%d", kind, x, tag)
+		default:
+			if bulk == 0 {
+				bulk = 900 + r.Intn(1400)
+				return fmt.Sprintf("b%d:%d", tag, bulk)
+			}
+			return fmt.Sprintf("a%d:%d", x, tag)
+		}
+	}
+	ngroups := 2 + r.Intn(6)
+	for g := 0; g < ngroups; g++ {
+		if g > 0 {
+			t.ops = append(t.ops, "|")
+		}
+		n := r.Intn(4)
+		if g == 0 {
+			n = 1 + r.Intn(3)
+		}
+		for i := 0; i < n; i++ {
+			t.ops = append(t.ops, op())
+		}
+	}
+	if r.Chance(35) {
+		// a prefix queued for the very path the goroutine is writing at that moment
+		tag := t.tags[r.Intn(len(t.tags))]
+		t.ops = append([]string{fmt.Sprintf("a0:%d", tag), "|", fmt.Sprintf("a1:%d", tag), "|"}, t.ops...)
+	}
+	return t
+}
+
 func fact(n int) int {
 	f := 1
 	for i := 2; i <= n; i++ {
@@ -798,6 +1001,11 @@ func main() {
 		rng := hx.NewRNG(cfg.Seed)
 		for i, n := 0, 0; n < cfg.N; i++ {
 			r := rng.Fork(uint64(i))
+			if i%4 == 3 { // every fourth history goes to the real sender goroutine
+				do(fmt.Sprintf("g%d.r", i), genReal(r, tr))
+				n++
+				continue
+			}
 			t := genCase(r, tr)
 			// how many keys are pending when changes stop? all their flush orders when there are <= 3
 			probe := &tcase{cfg: t.cfg, ribMode: t.ribMode, shapes: t.shapes, tags: t.tags, ops: append(append([]string{}, t.ops...), "f")}
